@@ -117,6 +117,28 @@ def run_cfg(arg):
     else:
       shapes.add(tuple(router.getDestinations(key)) if 'aggregated' not in cfg['router'] else
                  tuple(sorted(router.getDestinations(key))))
+  # membership changes at run time (DYNAMIC_ROUTER, stopClient): remove each destination in turn, check the
+  # router as a configuration of the remaining ones, re-add it and check again
+  if len(cfg['dests']) >= 2 and not cfg.get('static'):
+    bpts = positions_for(cfg, router, False)
+    for r in cfg['dests']:
+      router.removeDestination(tuple(r))
+      sub = dict(cfg, dests=[d for d in cfg['dests'] if d != r])
+      for p in bpts[::3]:
+        key = table[p]
+        v = check_one(sub, router, key)
+        n += 1
+        if v is not None and len(bad) < 3:
+          bad.append((v[0] + ':after-remove', '%s (after removeDestination(%r))' % (v[1], tuple(r)),
+                      {'cfg': cfg, 'key': key, 'position': p, 'removed': list(r)}))
+      router.addDestination(tuple(r))
+      for p in bpts[::3]:
+        key = table[p]
+        v = check_one(cfg, router, key)
+        n += 1
+        if v is not None and len(bad) < 3:
+          bad.append((v[0] + ':after-readd', '%s (after removing and re-adding %r)' % (v[1], tuple(r)),
+                      {'cfg': cfg, 'key': key, 'position': p, 'removed': list(r), 'readded': True}))
   return n, len(shapes), bad
 
 
@@ -193,6 +215,12 @@ def replay(path):
   cfg = rep['cfg']
   cfg['dests'] = [tuple(d) for d in cfg['dests']]
   router = make_router(cfg)
+  if rep.get('removed'):
+    router.removeDestination(tuple(rep['removed']))
+    if rep.get('readded'):
+      router.addDestination(tuple(rep['removed']))
+    else:
+      cfg = dict(cfg, dests=[d for d in cfg['dests'] if d != tuple(rep['removed'])])
   print('config:', cfg)
   print('key %r ->' % rep['key'], list(router.getDestinations(rep['key'])))
   r = check_one(cfg, router, rep['key'])
